@@ -148,6 +148,14 @@ else:
         ls += rnd[k::PARTS]
         parts_lines.append(ls)
 
+# One more, small part runs with ASan's detect_stack_use_after_return=1 (lib/verif.py's default for every harness): under
+# it this harness is ~10x slower (fake-stack frames, unwinding of the many std::out_of_range), so the bulk enumeration runs
+# with it switched off and this part repeats every kind of block on small inputs with it switched on.
+usar_part = None
+if not ck.replay:
+    usar_part = len(parts_lines)
+    parts_lines.append(corpus + null_view_cases() + ["huge %s" % s for s in HUGE_NEEDLES[:3]] +
+                       ["enum %s 2 2 1 1 0 1" % ALPHA, "aenum %s 0 2 0 1" % ALPHA] + rnd[:nrand:15][:80] + rnd[nrand:nrand + 3])
 casefiles = []
 for k, ls in enumerate(parts_lines):
     p = os.path.join(ck.scratch, "cases%d.txt" % k)
@@ -208,9 +216,16 @@ elif drv is None:
                  no_input=True)
 else:
     env = dict(os.environ, ASAN_OPTIONS="detect_leaks=1:abort_on_error=1", UBSAN_OPTIONS="print_stacktrace=1:abort_on_error=1")
-    jobs = [(exe, cf) for cf in casefiles] + [(drv, cf) for cf in casefiles]
+    env_bulk = dict(env, ASAN_OPTIONS=env["ASAN_OPTIONS"] + ":detect_stack_use_after_return=0")
+    env_usar = dict(env, ASAN_OPTIONS=env["ASAN_OPTIONS"] + ":detect_stack_use_after_return=1")
+    order = sorted(range(len(casefiles)), key=lambda k: k != usar_part)          # start the slow small part first
+    jobs = [(exe, k) for k in order] + [(drv, k) for k in order]
     with ThreadPoolExecutor(max_workers=4) as ex:
-        results = list(ex.map(lambda j: verif.sh([j[0], j[1]], timeout=TMO, env=env), jobs))
+        rs = list(ex.map(lambda j: verif.sh([j[0], casefiles[j[1]]], timeout=TMO,
+                                             env=(env_usar if j[1] == usar_part or ck.replay else env_bulk)), jobs))
+    results = [None] * (2 * len(casefiles))
+    for (tool, k), r in zip(jobs, rs):
+        results[k if tool is exe else len(casefiles) + k] = r
     n = len(casefiles)
     for k in range(n):
         rc1, out1 = results[k]
@@ -347,6 +362,8 @@ ck.finish({
     "calls whose behaviour std::string_view leaves undefined are not made: operator[] / front / back out of range, remove_prefix/suffix(n > size()), copy() into a destination overlapping the view",
     "throwing calls of compare(pos1,n1,...) are enumerated with n1 in {0, npos} only (the count is irrelevant once pos1 > size())",
     "extraction: ExtrOcamlBasic only; N/Z/list stay Coq inductives",
+    "ASan detect_stack_use_after_return=1 only for one small part (corpus, nullptr views, huge sizes, enum |hay|<=2, aliasing |buf|<=2, a sample "
+    "of the random cases: every kind of block); the bulk enumeration runs with it off because it makes this harness ~10x slower",
     "huge-size blocks: the driver passes (size, window bytes) to the extracted model instead of the whole byte list, justified by the proved "
     "theorems C18_compare_window, C18_operators_window, C18_substr_compare_factor, C18_starts_ends_with_window, C18_find_shift, C18_rfind_shift "
     "(and their siblings in coq/C18/Window.v); the choice of window offsets in ocaml/C18_driver.ml is hand-written",
